@@ -38,6 +38,13 @@ func genC13(r *simrt.Rand, tier string) (Cfg, *Program) {
 		pf.Waiters, pf.WaitOps = [2]int{1, 1}, [2]int{2, 6}
 		pf.Wait = []wop{{opWUFw, 1}}
 	}
+	if r.Chance(30) {
+		// the first consumer is paused and resumed while others keep submitting: notifications
+		// that arrive meanwhile are submissions too, and the items are drained after Resume
+		pf.Ctrl = []wop{{opPause, 3}, {opResume, 4}, {opPauseAndWait, 1}, {opSettle, 1}}
+		pf.CtrlOps = [2]int{1, 4}
+		pf.CtrlGapPct = 30
+	}
 	c, p := generate(r, pf)
 	c.Consumers = 1 + r.Intn(4)
 	for i := range c.Queues {
@@ -103,6 +110,12 @@ func hookC13(wd *World) {
 		}
 	}
 	simrt.WaitQuiescent()
+	if wd.w.Status() == "Paused" {
+		c := wd.rec.begin(opResume, -1, -1)
+		c.Err = errText(wd.w.Resume())
+		wd.rec.end(c)
+		simrt.WaitQuiescent()
+	}
 	// per-consumer submitted counters
 	all := append([]*World{wd}, wd.consumers...)
 	for _, c := range all {
